@@ -38,7 +38,12 @@ struct C06 : RBase {
   // 10 % of the groups end with a loop that cannot start (a type-protected name as forall iterator is refused at run time, outside the reference interpreter's subset):
   // the iterated table must not stay locked, whatever the loop did before it failed (residue invariants only)
   std::vector<std::vector<json>> extra_units(Rng& r, const json&, GenProgram&) const override {
-    std::vector<std::vector<json>> U; if (!r.chance(0.1)) return U;
+    std::vector<std::vector<json>> U;
+    if (r.chance(0.3)) { // a value returned at top level from a call whose body has loops: the callee runs to its own end first
+      U.push_back({json{{"k", "return"}, {"e", json{{"k", "call"}, {"f", "stray6"}, {"args", json::array({ilit(r.range(0, 3))})}, {"t", "int"}}}}});
+      U.push_back({print({slit("after return "), json{{"k", "call"}, {"f", "cnt"}, {"args", json::array({ilit(4)})}, {"t", "int"}}})});
+      return U; }
+    if (!r.chance(0.1)) return U;
     auto raw = [](const std::string& t) { return json{{"k", "rawstmt"}, {"v", t}}; };
     U.push_back({raw("lz = tab(2, 1);")});
     U.push_back({raw(r.chance(0.5) ? "forall $pz in lz loop print $pz; end loop;" : "for lk in 1 to 2 loop forall $py in lz loop print $py; end loop; end loop;")});
@@ -50,6 +55,12 @@ struct C06 : RBase {
     // the counting function: a bound expression with a visible side effect must be evaluated exactly once
     ast["funcs"].push_back(json{{"k", "func"}, {"n", "cnt"}, {"params", json::array({json{{"n", "x"}, {"t", "int"}, {"typed", true}}})}, {"ret", "int"},
       {"body", json::array({print({slit("eval"), var("x")}), json{{"k", "return"}, {"e", var("x")}}})}});
+    // break / continue only act on a loop of their own context: in a callee without a running loop they do nothing, and the caller's loop goes on
+    { auto cond = [&](long k, const char* what) { json i; i["k"] = "if"; i["c"] = bin(">", var("x"), ilit(k), "bool"); i["then"] = json::array({json{{"k", what}}}); i["elifs"] = json::array(); i["else"] = json::array(); return i; };
+      ast["funcs"].push_back(json{{"k", "func"}, {"n", "stray6"}, {"params", json::array({json{{"n", "x"}, {"t", "int"}, {"typed", true}}})}, {"ret", "int"},
+        {"body", json::array({cond(1, "break"), cond(2, "continue"), print({slit("stray6 "), var("x")}), json{{"k", "return"}, {"e", bin("+", var("x"), ilit(50))}}})}});
+      if (r.chance(0.5)) { json loop{{"k", "for"}, {"n", "qs"}, {"a", ilit(1)}, {"b", ilit(3)}, {"step", nullptr}, {"dir", ""}}; loop["body"] = json::array({print({slit("s:"), json{{"k", "call"}, {"f", "stray6"}, {"args", json::array({var("qs")})}, {"t", "int"}}})}); ast["body"].push_back(loop); }
+      if (r.chance(0.3)) { json w; w["k"] = "while"; w["c"] = bin("<", var("ws"), ilit(3), "bool"); w["body"] = json::array({json{{"k", "let"}, {"n", "ws"}, {"e", bin("+", var("ws"), ilit(1))}}, print({json{{"k", "call"}, {"f", "stray6"}, {"args", json::array({var("ws")})}, {"t", "int"}}})}); ast["body"].push_back(json{{"k", "let"}, {"n", "ws"}, {"e", ilit(0)}}); ast["body"].push_back(w); } }
     int n = (int)r.range(2, 5);
     for (int i = 0; i < n; ++i) {
       std::string it = "q" + std::to_string(i);
